@@ -209,12 +209,13 @@ class RawPeer:
             out["final"] = code
             return out
         out["data"], out["how"] = await self.recv_all(data_timeout)
+        out["data_tr"] = self.data[1].transport
         self.data_close()
         code, lines = await self.reply()
         out["final"] = code
         return out
 
-    async def upload(self, verb_line, payload, *, passive="EPSV", connect="before", chunks=None):
+    async def upload(self, verb_line, payload, *, passive="EPSV", connect="before", chunks=None, data_timeout=None):
         out = {"pre": None, "mark": None, "final": None, "how": None}
         out["pre"] = await self.passive(passive)
         if self.passive_port is None:
@@ -233,7 +234,14 @@ class RawPeer:
             code, lines = await self.reply()
             out["final"] = code
             return out
-        out["how"] = await self.send_all(payload, chunks)
+        if data_timeout is None:
+            out["how"] = await self.send_all(payload, chunks)
+        else:
+            try:
+                out["how"] = await asyncio.wait_for(self.send_all(payload, chunks), data_timeout)
+            except asyncio.TimeoutError:
+                out["how"] = "timeout"
+        out["data_tr"] = self.data[1].transport
         self.data_close()
         code, lines = await self.reply()
         out["final"] = code
